@@ -533,7 +533,27 @@ func subReadResults() mon.Sub {
 					if k%3 != 0 {
 						into = recycled[:0]
 					}
-					ms, err := wsutil.ReadMessage(xport.NewChunker(st1, plans[k%len(plans)]), stateOf(side), into)
+					var src1 io.Reader = xport.NewChunker(st1, plans[k%len(plans)])
+					var br *bufio.Reader
+					if k/13%3 == 0 {
+						// the source is a buffered reader that already holds the whole message and what follows it (the
+						// reader Dialer.Dial hands back for frames the server sent right behind its 101; any
+						// application-side bufio.Reader): the buffer is the READER's - it is refilled by the next read,
+						// and given back to the pool with ws.PutReader
+						follow := bytes.Repeat([]byte{'#'}, 64+k%5000)
+						br = bufio.NewReaderSize(bytes.NewReader(append(append([]byte(nil), st1...), follow...)), len(st1)+len(follow)+16)
+						br.Peek(1)
+						src1 = br
+					}
+					ms, err := wsutil.ReadMessage(src1, stateOf(side), into)
+					if br != nil {
+						// ... the application reads on from the same reader, then re-uses it for another connection and
+						// finally hands it to the library's pool
+						io.Copy(io.Discard, br)
+						br.Reset(bytes.NewReader(bytes.Repeat([]byte{'%'}, br.Size())))
+						br.Peek(br.Size())
+						ws.PutReader(br)
+					}
 					recycled = ms
 					if err != nil || len(ms) != len(ctlWant)+1 {
 						c.Fail("harness/readmessage", fmt.Sprintf("ReadMessage failed: %v (%d messages, %d control frames sent)", err, len(ms), len(ctlWant)), nil)
